@@ -43,4 +43,12 @@ CHECKS = {
         "require_classes": ["sweep:block", "fbtype:known", "fbtype:unknown", "magic"],
         "assumptions": [],
     },
+    "C03": {
+        "bin": "c03",
+        "cfgs": {"quick": ["dD", "rD"], "thorough": ["dD", "rD", "rN"]},
+        "technique": MC + "; all iterator call histories up to a depth, states = (region bytes, sorted reference cursors)",
+        "rule": "walk body: one leaf per choice vector (type, size at every offset the reference walk reaches); history body: one leaf per (payload, call sequence). states = distinct payload images, plus (payload, sorted model cursors) after every history step. non-trivial = the region has at least one tag or must be refused; every history leaf",
+        "require_classes": ["walk:complete", "walk:refused", "modules:complete", "history:done", "load:ok"],
+        "assumptions": ["regions are as large as they declare"],
+    },
 }
